@@ -284,12 +284,39 @@ def _eval_cost(c, rec):
             continue
         differs = differs or a != b
         if not ge(b, a):
-            bad('levelized_cost_decreases_with_cost', {'which': n, 'x1': c['x1'], 'x2': c['x2'], 'x1_run': a, 'x2_run': b}, which=n)
+            bad('levelized_cost_decreases_with_cost', {'which': n, 'x1': c['x1'], 'x2': c['x2'], 'x1_run': a, 'x2_run': b,
+                                                       'bicycle_capital_multiplier': _bicycle_capital_multiplier(e1, sp)},
+                which=n, explained_by=_explain_cost_decrease(e1, sp))
     nt = (c['x2'] - c['x1']) >= 0.01 * c['span'] and differs
     rec.case(c, nontrivial=nt, labels=['cost_pair', 'cost:' + ('adjustment_factor' if c['name'].endswith('Factor') else 'input'),
                                        'cost_output_differs' if differs else 'cost_output_same'],
              key=[c['params'], c['name'], c['x1'], c['x2']],
              sample={'family': c['family'], 'name': c['name'], 'x1': c['x1'], 'x2': c['x2'], 'npv': [npv1, npv2]})
+
+
+def _bicycle_capital_multiplier(e, sp):
+    """d(numerator of the documented BICYCLE levelized cost)/d(capital cost), from the run's own rates: capital recovery +
+    property tax + income-tax term - investment tax credit grossed up by 1/(1 - income tax rate)"""
+    try:
+        if snapshot.enum_int(e['econmodel'].value) != 3:
+            return None
+        life = int(sp['plant_lifetime'].value)
+        fib, bir, ctr, eir = (float(e[k].value) for k in ('FIB', 'BIR', 'CTR', 'EIR'))
+        rinfl, ptr, ritc, ic = (float(e[k].value) for k in ('RINFL', 'PTR', 'RITC', 'inflrateconstruction'))
+        iave = fib * bir * (1 - ctr) + (1 - fib) * eir
+        crf = iave / (1 - (1 + iave) ** (-life))
+        m = 0.0
+        for t in range(1, life + 1):
+            disc = 1.0 / (1 + iave) ** t
+            m += (1 + ic) * crf * disc + (1 + ic) * ptr * (1 + rinfl) ** t * disc + ctr / (1 - ctr) * ((1 + ic) * crf - 1.0 / life) * disc
+        return m - (1 + ic) * ritc / (1 - ctr)
+    except (KeyError, ValueError, ZeroDivisionError, OverflowError, TypeError):
+        return None
+
+
+def _explain_cost_decrease(e, sp):
+    m = _bicycle_capital_multiplier(e, sp)
+    return 'bicycle_capital_multiplier_not_positive' if m is not None and m <= 1e-12 else 'none'
 
 
 EVALS = {'bht': (bht_pairs, _eval_bht), 'tdp': (tdp_pairs, _eval_tdp), 'flow': (flow_pairs, _eval_flow)}
